@@ -30,6 +30,9 @@ CLAIMS["C02"] = ("Coq theorem C02_roundtrip (closed, no axioms): for EVERY byte 
 CLAIMS["C07"] = ("Coq theorems C07_*: generated Code 39 / Code 93 tables = literal standard tables (patterns distinct, values unique, search by value independent of map order); for EVERY text and option mix the models never panic, accept exactly the basic alphabets (basic mode) or ASCII 0..127 (full-ASCII), and the reference decoders (pattern -> value, check characters mod 43 / C,K mod 47 with weights 20/15 present exactly when requested, shift-pair resolution) applied to the model's modules return exactly the text; Content and Code 39 CheckSum as specified. Tied to the code by generated tables, exhaustive length<=2 inputs, random longer ones incl. invalid UTF-8, and the extracted decoders run on the implementation's pixels.", "DESIGN.md §5 C07")
 CLAIMS["C08"] = ("Coq theorems C08_*: generated Codabar / 2-of-5 tables = standard tables; the Codabar regexp+ReplaceAllString acceptance is modelled explicitly and shown to accept exactly start[A-D] body* stop[A-D]; both 2-of-5 modes accept exactly non-empty digit strings (even length when interleaved) for ALL byte strings incl. multi-byte input (after repair 63bda0c); run-length reference decoders applied to the model's modules return exactly the text; AddCheckSum appends the digit completing the 3-1 weighted sum to a multiple of ten, errors on empty/non-digit. Tied to the code by generated tables, exhaustive sweeps (thorough: all Codabar strings of length <= 6, all digit strings <= 7 for both variants and the helper), extracted decoders as oracle on the implementation's pixels.", "DESIGN.md §5 C08")
 
+CLAIMS["C01"] = ("Coq theorem C01_roundtrip (closed, no axioms): for EVERY byte string, level, mode (Auto/Numeric/AlphaNumeric/Unicode) and each of the 8 masks for which the QR model returns a barcode, the ISO 18004 reference reader (size -> version, both BCH-valid format copies, version info, unmask, codewords in the spec's column-pair order, de-interleave, RS syndromes over GF(256)/285 at alpha^0.., segment parser, terminator/pad check) validates the pixels and returns exactly the content. Layers: the 160 generated version rows = ISO-derived table, format/version words = computed BCH/Golay words, alignment = Annex E, char counts; per-version layout (function modules, zig-zag = column-pair order, duplicate-free) for all 40 versions; mask predicates = Table 10 arithmetically; mode encoders / padding / block split+interleave / placement by induction. The mask choice is an oracle read from the implementation's output (penalty rules not modelled). Tied to the code by generated tables, exhaustive finite sub-domains through hooks, capacity-boundary contents, and the extracted reader run on the implementation's pixels.", "DESIGN.md §5 C01")
+CLAIMS["C14"] = ("Coq theorems C14_*: EAN CheckSum() = last digit of Content = GS1 check digit for all four input lengths; Code 128 CheckSum() = modulo-103 weighted sum and the drawn check character has that value; Code 39 CheckSum() = sum of values modulo 43 in every option mix and the drawn character (when requested) has that value; any chain of Scale calls leaves CheckSum() unchanged (via the C09 chain theorem). Tied to the code by a differential run over all three symbologies followed by 0..3 rounds of Scale, with the reference decoders reading the check character from the implementation's pixels.", "DESIGN.md §5 C14")
+
 ALL = ["C%02d" % i for i in range(1, 19)]
 
 
